@@ -142,7 +142,9 @@ func verifEncryptedEl(tag string, name string, p verifProfile, depth int) *etree
 		}
 		el.CreateElement("xenc:CipherData").CreateElement("xenc:CipherValue").SetText(base64.StdEncoding.EncodeToString(verifNondetBytes(tag+".cv", n)))
 	case 1:
-		el.CreateElement("xenc:CipherData").CreateElement("xenc:CipherValue").SetText("%%% not base64 %%%")
+		// text that is not base64 of anything: wrong alphabet, or a length no encoder produces (1 or 5 characters, stray padding)
+		bad := []string{"%%% not base64 %%%", "A", "QUJDR", "QQ=", "=", "QUJD\n R"}
+		el.CreateElement("xenc:CipherData").CreateElement("xenc:CipherValue").SetText(bad[verifChoose(tag+".badtext", len(bad))])
 	case 2:
 		el.CreateElement("xenc:CipherData")
 	}
